@@ -29,6 +29,9 @@ BODIES = {
     "twins": "{\n  d = 3;\n  s.a.e = 1;\n  s.b.e = 1;\n  b = 2;\n}",
     "mixed_rev": "{\n  a = {\n    c = 2;\n  };\n  a.b = 1;\n  d = 3;\n}",
     "mixed3": "{\n  a.b.c = 1;\n  a.b = {\n    d = 2;\n  };\n  a.b.e = 3;\n}",
+    "deep4": "{\n  a.b.c.d = 1;\n  a.b.c.e = 2;\n  b = 2;\n}",  # four-segment attrpaths sharing a three-segment prefix
+    "split": "{\n  a.b = 1;\n  d = 3;\n  a.c = 2;\n}",  # an attrpath family interrupted by a plain binding
+    "ml_inline_nested": "{\n  a = { b = 1; };\n  d = 3;\n}",  # one-line nested set inside a multi-line set
 }
 WRAPPERS = {
     "lamf": "{ p }:\n%s",
@@ -40,6 +43,7 @@ WRAPPERS = {
     "paren": "(%s)",
     "call": "f %s",
     "letap": "let\n  u.k = 1;\n  w = 3;\nin\n%s",  # a let layer holding an attrpath binding
+    "letset": "let\n  u = {\n    k = 1;\n  };\nin\n%s",  # a let layer whose binding is a set
     "let2c": "let\n  u = 1;\nin\n# between\nlet\n  u = 2;\n  w = 3;\nin\n# before body\n%s",  # trivia between layers
 }
 
@@ -56,8 +60,11 @@ BODY_SIMPLER = {
     "twins": ["attrpath", "inline", "empty"],
     "mixed_rev": ["mixed", "attrpath", "nested", "inline", "empty"],
     "mixed3": ["mixed", "deep", "attrpath", "inline", "empty"],
+    "deep4": ["deep", "attrpath", "inline", "empty"],
+    "split": ["attrpath", "inline", "empty"],
+    "ml_inline_nested": ["nested", "inline", "empty"],
 }
-WRAPPER_SIMPLER = {"let2": ["let1"], "lamf": ["lam"], "letap": ["let1"], "let2c": ["let2"]}
+WRAPPER_SIMPLER = {"let2": ["let1"], "lamf": ["lam"], "letap": ["let1"], "let2c": ["let2"], "letset": ["let1"]}
 
 
 def op_reductions(op):
@@ -112,12 +119,12 @@ def docs(max_stack: int, bodies=None, wrappers=None, layouts=("canon", "oneline"
 # --------------------------------------------------------------------------- operations
 
 PATHS = [
-    "a", "b", "z", "a.b", "a.c", "a.z", "d", "d.e", "y.x.w", '"q.r"', "a.b.c", '"a"', "q", "s.a.e", "s.b.e", "a.b.e", "a.b.d",
+    "a", "b", "z", "a.b", "a.c", "a.z", "d", "d.e", "y.x.w", '"q.r"', "a.b.c", '"a"', "q", "s.a.e", "s.b.e", "a.b.e", "a.b.d", "a.b.c.e", "a.b.c.d", "a.m.n", "q.r", "@u.m.n",
     "@u", "@z", "@@u", "@@@u", "@w", "@u.k", "@@z",
     "", "a..b", "a.", '"x', "@", "1x", 'a"b"', '"a\\',
 ]
 VALUES = ["9", '"s"', "{ k = 1; }", "[ 1 2 ]", "u", "", "1;", "{", "# c\n", "1 # c"]
-SMALL_PATHS = ["a", "z", "a.b", "a.z", "d.e", "@u", "@z", "@@u", "", "a."]
+SMALL_PATHS = ["a", "b", "d", "z", "a.b", "a.c", "a.z", "d.e", "@u", "@z", "@@u", "", "a."]
 SMALL_VALUES = ["9", "{ k = 1; }", "{"]
 
 
